@@ -44,8 +44,9 @@ def Layout.procStart (L : Layout) : Nat := L.svcStart + L.nSvc
 def Layout.stateSize (L : Layout) : Nat := L.procStart + L.nProc
 
 /-- write a block of consecutive entries, as the `enumerate` loops of `vectorize` do -/
-def writeFrom (v : List Int) (start : Nat) (xs : List Int) : List Int :=
-  (xs.zipIdx).foldl (fun acc (x, i) => acc.set (start + i) x) v
+def writeFrom (v : List Int) (start : Nat) : List Int → List Int
+  | [] => v
+  | x :: xs => writeFrom (v.set start x) (start + 1) xs
 
 /-- `HostVector.vectorize`: a zero vector of `state_size` written through the computed indices -/
 def vectorize (L : Layout) (r : Row) : List Int :=
@@ -62,12 +63,15 @@ def vectorize (L : Layout) (r : Row) : List Int :=
   let v := writeFrom v L.svcStart (r.svc.map bi)
   writeFrom v L.procStart (r.proc.map bi)
 
+/-- scan for the first maximal entry: rest, best value so far, its index, current index -/
+def argmaxAux : List Int → Int → Nat → Nat → Nat
+  | [], _, best, _ => best
+  | y :: ys, b, best, i => if y > b then argmaxAux ys y i (i + 1) else argmaxAux ys b best (i + 1)
+
 /-- index of the first maximal entry (`numpy.argmax`) -/
-def argmax (l : List Int) : Nat :=
-  match l with
+def argmax : List Int → Nat
   | [] => 0
-  | x :: xs =>
-    (xs.zipIdx.foldl (fun (acc : Int × Nat) (y, i) => if y > acc.1 then (y, i + 1) else acc) (x, 0)).2
+  | x :: xs => argmaxAux xs x 0 1
 
 def slice (v : List Int) (a b : Nat) : List Int := (v.drop a).take (b - a)
 
